@@ -70,11 +70,15 @@ func NewSupport() *Support {
 	emsg := &Record{Kind: Message, Name: "SupEmptyMsg", Support: true, Label: "message:empty"}
 	ua := &Record{Kind: Struct, Name: "SupUnionA", Support: true, Inline: true, Label: "struct:fixed", Fields: []Field{{Name: "a", Type: P("int32")}}}
 	ub := &Record{Kind: Message, Name: "SupUnionB", Support: true, Inline: true, Label: "message", Fields: []Field{{Name: "s", Index: 1, Type: P("string")}}}
-	un := &Record{Kind: Union, Name: "SupUnion", Support: true, Label: "union", Branches: []Branch{{1, ua}, {2, ub}}}
+	un := &Record{Kind: Union, Name: "SupUnion", Support: true, Label: "union", Branches: []Branch{{Disc: 1, Rec: ua}, {Disc: 2, Rec: ub}}}
 	// structs without a length prefix of their own whose wire size is not fixed because of what they hold
 	holdM := &Record{Kind: Struct, Name: "SupHoldMsg", Support: true, Label: "struct:holds-message", Fields: []Field{{Name: "m", Type: R(msg)}, {Name: "a", Type: P("int32")}}}
 	holdU := &Record{Kind: Struct, Name: "SupHoldUnion", Support: true, Label: "struct:holds-union", Fields: []Field{{Name: "b", Type: P("byte")}, {Name: "u", Type: R(un)}}}
-	s.Records = []*Record{fixed, vari, empty, ro, msg, emsg, un, holdM, holdU}
+	// structs that look fixed-size at first glance: no string/array/map field of their own, but one inside a nested struct;
+	// and a struct whose variable part is an array
+	holdV := &Record{Kind: Struct, Name: "SupHoldVar", Support: true, Label: "struct:holds-var-struct", Fields: []Field{{Name: "id", Type: P("int32")}, {Name: "v", Type: R(vari)}}}
+	holdA := &Record{Kind: Struct, Name: "SupHoldArr", Support: true, Label: "struct:holds-array", Fields: []Field{{Name: "id", Type: P("uint32")}, {Name: "xs", Type: A(P("int32"))}, {Name: "e", Type: P("byte")}}}
+	s.Records = []*Record{fixed, vari, empty, ro, msg, emsg, un, holdM, holdU, holdV, holdA}
 	for _, p := range Primitives {
 		s.Leaves = append(s.Leaves, P(p))
 	}
@@ -215,8 +219,10 @@ func (s *Support) Cases(thorough bool) []*Case {
 			Rec: &Record{Kind: Message, Name: id("MD"), Fields: mf(true)}})
 		ua := &Record{Kind: Struct, Inline: true, Name: id("U") + "A", Fields: []Field{{Name: "f", Type: t, Tag: tag}, after()}}
 		ub := &Record{Kind: Message, Inline: true, Name: id("U") + "B", Fields: []Field{{Name: "f", Index: 1, Type: t, Tag: tag}, {Name: "after", Index: 2, Type: P("int32")}}}
+		// a deprecated branch is still a branch: it travels like any other
+		uc := &Record{Kind: Struct, Inline: true, Name: id("U") + "C", Fields: []Field{{Name: "f", Type: t}}}
 		out = append(out, &Case{ID: id("U"), Ctx: "U", Shape: t, Class: "U|" + t.Class(),
-			Rec: &Record{Kind: Union, Name: id("U"), Branches: []Branch{{1, ua}, {2, ub}}}})
+			Rec: &Record{Kind: Union, Name: id("U"), Branches: []Branch{{Disc: 1, Rec: ua}, {Disc: 2, Rec: ub}, {Disc: 9, Rec: uc, Dep: true}}}})
 	}
 	// pairs: sibling fields couple through the generator's length-name counters
 	pairT := []*Type{P("int32"), P("string"), A(P("byte")), A(P("int32")), M("string", P("int32")),
@@ -259,7 +265,7 @@ func (s *Support) Cases(thorough bool) []*Case {
 	out = append(out, &Case{ID: "CXBigInMsg", Ctx: "X", Class: "X|big-struct-in-message", Extra: []*Record{bigStr},
 		Rec: &Record{Kind: Message, Name: "CXBigInMsg", Fields: []Field{{Name: "bait", Index: 1, Type: P("int32")}, {Name: "s", Index: 2, Type: R(bigStr)}}}})
 	bigU := &Record{Kind: Union, Name: "CXBigUnion"}
-	bigU.Branches = []Branch{{1, &Record{Kind: Struct, Inline: true, Name: "CXBigUnionA", Fields: []Field{{Name: "b", Type: A(P("byte"))}}}}, {2, &Record{Kind: Message, Inline: true, Name: "CXBigUnionB", Fields: []Field{{Name: "s", Index: 1, Type: P("string")}}}}}
+	bigU.Branches = []Branch{{Disc: 1, Rec: &Record{Kind: Struct, Inline: true, Name: "CXBigUnionA", Fields: []Field{{Name: "b", Type: A(P("byte"))}}}}, {Disc: 2, Rec: &Record{Kind: Message, Inline: true, Name: "CXBigUnionB", Fields: []Field{{Name: "s", Index: 1, Type: P("string")}}}}}
 	out = append(out, &Case{ID: "CXBigUnion", Ctx: "X", Class: "X|big-union", Rec: bigU})
 	// forward references: a struct made only of structs declared later in the file (sizes are not known top-down)
 	fwdB := &Record{Kind: Struct, Name: "CXFwdB", Support: true, Label: "struct:fixed", Fields: []Field{{Name: "x", Type: P("int32")}, {Name: "y", Type: P("uint16")}}}
@@ -274,6 +280,13 @@ func (s *Support) Cases(thorough bool) []*Case {
 	f3b := &Record{Kind: Struct, Name: "CXFwd3B", Support: true, Label: "struct:forward-declared", Fields: []Field{{Name: "s", Type: R(f3c)}, {Name: "n", Type: P("uint16")}}}
 	f3 := &Record{Kind: Struct, Name: "CXFwd3", Fields: []Field{{Name: "legs", Type: A(R(f3b))}, {Name: "m", Type: M("uint32", R(f3b))}, after()}}
 	out = append(out, &Case{ID: "CXFwd3", Ctx: "X", Class: "X|forward-declared-structs-3-deep", Rec: f3, Extra: []*Record{f3b, f3c, f3d}})
+	// a struct with no variable-size field of its own that embeds a struct declared AFTER it which has one
+	fve := &Record{Kind: Struct, Name: "CXFwdVarEnd", Support: true, Label: "struct:var", Fields: []Field{{Name: "host", Type: P("string")}, {Name: "port", Type: P("uint16")}}}
+	fvh := &Record{Kind: Struct, Name: "CXFwdVarHop", Support: true, Label: "struct:forward-declared", Fields: []Field{{Name: "n", Type: P("int32")}, {Name: "to", Type: R(fve)}}}
+	out = append(out, &Case{ID: "CXFwdVar", Ctx: "X", Class: "X|forward-declared-var-struct-in-array", Extra: []*Record{fvh, fve},
+		Rec: &Record{Kind: Struct, Name: "CXFwdVar", Fields: []Field{{Name: "hops", Type: A(R(fvh))}, after()}}})
+	out = append(out, &Case{ID: "CXFwdVarM", Ctx: "X", Class: "X|forward-declared-var-struct-in-message", Extra: []*Record{fvh, fve},
+		Rec: &Record{Kind: Message, Name: "CXFwdVarM", Fields: []Field{{Name: "hops", Index: 1, Type: A(R(fvh))}, {Name: "after", Index: 2, Type: P("int32")}}}})
 	// recursion through a message / a union
 	rm := &Record{Kind: Message, Name: "CXRecM"}
 	rm.Fields = []Field{{Name: "v", Index: 1, Type: P("int32")}, {Name: "next", Index: 2, Type: R(rm)}, {Name: "kids", Index: 3, Type: A(R(rm))}}
@@ -282,7 +295,7 @@ func (s *Support) Cases(thorough bool) []*Case {
 	rua := &Record{Kind: Struct, Inline: true, Name: "CXRecUA", Fields: []Field{{Name: "v", Type: P("int32")}}}
 	rub := &Record{Kind: Message, Inline: true, Name: "CXRecUB"}
 	rub.Fields = []Field{{Name: "inner", Index: 1, Type: R(ru)}, {Name: "tail", Index: 2, Type: P("string")}}
-	ru.Branches = []Branch{{1, rua}, {3, rub}, {255, &Record{Kind: Struct, Inline: true, Name: "CXRecUC"}}}
+	ru.Branches = []Branch{{Disc: 1, Rec: rua}, {Disc: 3, Rec: rub}, {Disc: 255, Rec: &Record{Kind: Struct, Inline: true, Name: "CXRecUC"}}}
 	out = append(out, &Case{ID: "CXRecU", Ctx: "X", Class: "X|recursive-union", Rec: ru})
 	// many fields of all primitive kinds in one struct / message (layout of adjacent scalars)
 	all := &Record{Kind: Struct}
